@@ -234,7 +234,19 @@ func (n *Node) Close() {
 	n.deactivateEvents()
 	func() {
 		defer func() { _ = recover() }()
+		n.Ckp.Close() // stops the checkpoint file-channel goroutines
+	}()
+	func() {
+		defer func() { _ = recover() }()
 		n.Store.Close()
+	}()
+	func() {
+		// the legacy-format LevelDB handle is separate (ChainStore.CloseLeveldb); leaving it
+		// open leaks ~4 MB and several goleveldb goroutines per node
+		defer func() { _ = recover() }()
+		if c, ok := n.Store.(interface{ CloseLeveldb() }); ok {
+			c.CloseLeveldb()
+		}
 	}()
 	_ = os.RemoveAll(n.Dir)
 }
